@@ -711,6 +711,82 @@ func (p *Prog) unguardedCallSites(fn *ssa.Function, params []*ssa.Parameter, una
 	return bad
 }
 
+// rangeCheckedUses: the uses of v (through phis) that are not preceded by a
+// two-sided constant range test narrower than int64. A use that returns the
+// value is followed into every caller of the function.
+func (p *Prog) rangeCheckedUses(v0 ssa.Value, two63 float64, depth int) (badUses []string, nuses int) {
+	web := map[ssa.Value]bool{v0: true}
+	for changed := true; changed; {
+		changed = false
+		for v := range web {
+			for _, r := range *v.Referrers() {
+				if ph, ok := r.(*ssa.Phi); ok && !web[ph] {
+					web[ph] = true
+					changed = true
+				}
+			}
+		}
+	}
+	for v := range web {
+		for _, r := range *v.Referrers() {
+			switch r.(type) {
+			case *ssa.Phi, *ssa.BinOp, *ssa.If, *ssa.DebugRef:
+				continue
+			}
+			nuses++
+			ufs := factsAt(r.Block())
+			good := false
+			for w := range web {
+				lo, hi := rangeLimited(ufs, w, -two63+1, two63-1025)
+				if lo && hi {
+					good = true
+				}
+			}
+			if good {
+				continue
+			}
+			// returned: judged at the call sites
+			if ret, ok := r.(*ssa.Return); ok && depth < 2 {
+				fn := ret.Parent()
+				idx := -1
+				for i, rv := range ret.Results {
+					if rv == v {
+						idx = i
+					}
+				}
+				node := p.CG.Nodes[fn]
+				if idx >= 0 && node != nil && len(node.In) > 0 {
+					allGood := true
+					for _, e := range node.In {
+						c, ok := e.Site.(*ssa.Call)
+						if !ok || c.Call.StaticCallee() != fn {
+							allGood = false
+							break
+						}
+						var rv ssa.Value = c
+						if len(ret.Results) > 1 {
+							rv = extractOf(c, idx)
+						}
+						if rv == nil {
+							continue // result not used
+						}
+						b2, n2 := p.rangeCheckedUses(rv, two63, depth+1)
+						if len(b2) > 0 || n2 == 0 {
+							allGood = false
+							badUses = append(badUses, b2...)
+						}
+					}
+					if allGood {
+						continue
+					}
+				}
+			}
+			badUses = append(badUses, p.pos(r.Pos()))
+		}
+	}
+	return badUses, nuses
+}
+
 var ruleF2I = &Rule{
 	Name: "R-F2I", NeedSSA: true,
 	Doc: "every float64 → int64 conversion in package exec is either dominated by guards that exclude every value outside int64 as evaluated in float64 (an upper test `> MaxInt64` is recognised as insufficient because the constant rounds to 2^63), or its result is compared against a narrower two-sided constant range before it is used, which rejects the wrapped/saturated outcome of every architecture",
@@ -743,41 +819,9 @@ var ruleF2I = &Rule{
 						out.ok(key, p.pos(cv.Pos()), fnName(fn), "operand is known to lie in [-2^63, 2^63) before the conversion")
 						continue
 					}
-					// (B) result range-checked at every use
-					web := map[ssa.Value]bool{cv: true}
-					for changed := true; changed; {
-						changed = false
-						for v := range web {
-							for _, r := range *v.Referrers() {
-								if ph, ok := r.(*ssa.Phi); ok && !web[ph] {
-									web[ph] = true
-									changed = true
-								}
-							}
-						}
-					}
-					var badUses []string
-					nuses := 0
-					for v := range web {
-						for _, r := range *v.Referrers() {
-							switch r.(type) {
-							case *ssa.Phi, *ssa.BinOp, *ssa.If, *ssa.DebugRef:
-								continue
-							}
-							nuses++
-							ufs := factsAt(r.Block())
-							good := false
-							for w := range web {
-								lo, hi := rangeLimited(ufs, w, -two63+1, two63-1025)
-								if lo && hi {
-									good = true
-								}
-							}
-							if !good {
-								badUses = append(badUses, p.pos(r.Pos()))
-							}
-						}
-					}
+					// (B) result range-checked at every use (followed into the
+					// callers when the converted value is returned)
+					badUses, nuses := p.rangeCheckedUses(cv, two63, 0)
 					sort.Strings(badUses)
 					if nuses > 0 && len(badUses) == 0 {
 						out.ok(key, p.pos(cv.Pos()), fnName(fn), "the converted value is compared against a narrower two-sided range before every use")
